@@ -290,7 +290,7 @@ theorem C02_equ_chain_witness :
 
 /-- a label that occurs twice (after INCLUDE expansion) is rejected with a diagnostic -/
 theorem C02_duplicate_label {fs : Files} {lines : List Str} {parsed ss0 : List Stmt}
-    (hp : parseLines lines = .ok parsed) (he : expand fs 64 [] parsed = .ok ss0)
+    (hp : parseLines lines = .ok parsed) (he : expand fs (includeFuel fs) [] parsed = .ok ss0)
     {i j : Nat} {s t : Stmt} (hij : i < j) (hs : ss0[i]? = some s) (ht : ss0[j]? = some t)
     (hl : s.label = t.label) (hne : s.label.isEmpty = false) : assemble fs lines = .diag := by
   unfold assemble
@@ -305,7 +305,7 @@ theorem C02_partial :
     (∀ (fs : Files) (lines : List Str) (a : Assembly), assemble fs lines = .ok a →
         AddressChain a ∧ ImageConcat a ∧ SymbolsBound a PseudoValueHyp) ∧
     (∀ (fs : Files) (lines : List Str) (parsed ss0 : List Stmt) (i j : Nat) (s t : Stmt),
-        parseLines lines = .ok parsed → expand fs 64 [] parsed = .ok ss0 → i < j → ss0[i]? = some s → ss0[j]? = some t →
+        parseLines lines = .ok parsed → expand fs (includeFuel fs) [] parsed = .ok ss0 → i < j → ss0[i]? = some s → ss0[j]? = some t →
         s.label = t.label → s.label.isEmpty = false → assemble fs lines = .diag) :=
   ⟨fun _ _ _ h => ⟨C02_chain h, C02_image h, C02_symbols h⟩,
    fun _ _ _ _ _ _ _ _ hp he hij hs ht hl hne => C02_duplicate_label hp he hij hs ht hl hne⟩
